@@ -76,6 +76,41 @@ theorem decorated_mixed_session_exact {P : Bytes → Bool} {cfg : Cfg} {dv : Lin
     mixed_session_in_step_dec hf D hD hfirst hout stripPrompt ops hg w w.avail n (dec_of_hws w hheld hw) hw
   exact ⟨rs, w', n', h1, h2, h3⟩
 
+/-- **`send_commands` over a decorating device**: the statement of `send_commands_exact` (responses = those of the
+    commands up to and including the first whose own result carries a failure marker when `stop_on_failed` is on; each
+    result the command's own `expected` text; flags from that text alone; exactly those commands written) holds for
+    every decoration and every segmentation as well -/
+theorem decorated_send_commands_exact {P : Bytes → Bool} {cfg : Cfg} {dv : LineDev} (hf : Fits P cfg dv)
+    (D : Nat → Bytes → Bytes) (hD : Decorates D)
+    (strip : Bool) (fwc : List Bytes) (stop : Bool) (init : List Bytes) (last : Bytes)
+    (hg : ∀ i ∈ init ++ [last], GoodCmd P dv i)
+    (w : Wire) (hw : ∀ x ∈ w.avail, isHws x = true) (hheld : w.held = []) (n : Nat) :
+    ∃ rs w' n', sendCommands cfg (decOnWrite dv D) strip fwc stop init last (w, ([], n)) = some (rs, (w', ([], n'))) ∧
+      rs.map (fun r => (r.result, r.failed)) =
+        (sentAll stop (fun c => failedOf fwc (expected cfg dv strip c)) init last).map
+          (fun c => (expected cfg dv strip c, failedOf fwc (expected cfg dv strip c))) ∧
+      w'.writes = w.writes ++
+        ((sentAll stop (fun c => failedOf fwc (expected cfg dv strip c)) init last).map (fun i => [i, cfg.ret])).flatten := by
+  obtain ⟨rs, w1, res1, n1, h1, hres, hwr, hd1, hr1⟩ :=
+    sendCommandsLoop_exact_dec hf D hD strip fwc stop init (fun i hi => hg i (by simp [hi])) w w.avail n
+      (dec_of_hws w hheld hw) hw
+  unfold sentAll
+  cases hb : (sentOf stop (fun c => failedOf fwc (expected cfg dv strip c)) init).2 with
+  | true =>
+    rw [hb] at h1
+    refine ⟨rs, w1, n1, ?_, by simpa using hres, by simpa using hwr⟩
+    unfold sendCommands; rw [h1]
+  | false =>
+    rw [hb] at h1
+    obtain ⟨r, w2, _, h2, hr, hfl, hw2, _, _⟩ :=
+      sendCommand_exact_dec hf D hD strip fwc last (hg last (by simp)) w1 res1 hd1 hr1 n1
+    refine ⟨rs ++ [r], w2, n1 + 2, ?_, ?_, ?_⟩
+    · unfold sendCommands; rw [h1]; simp only; rw [h2]; rfl
+    · simp only [Bool.false_eq_true, if_false, List.map_append, List.map_cons, List.map_nil, hres, hr, hfl]
+    · simp only [Bool.false_eq_true, if_false, List.map_append, List.map_cons, List.map_nil, List.flatten_append,
+        List.flatten_cons, List.flatten_nil, List.append_nil]
+      rw [hw2, hwr]; simp [List.append_assoc]
+
 /-! non-vacuity: a decoration that puts an SGR sequence in front of every even burst and CR + ESC 7 behind it,
     the example pattern / device / command of C01.lean (output longer than the window), arbitrary cuts — the
     read boundaries may fall anywhere inside the sequences -/
